@@ -197,6 +197,27 @@ pub fn generate(thorough: bool, rng: &mut Rng) -> Vec<String> {
         }
     }
 
+    // ---- every mode: the fixed mutation classes of one exact path as ONE history (so that every
+    // server configuration / layer / way of using the value sees a trailing slash, an empty
+    // segment, a case change, an escape, a prefix …), exact path first, last and in between
+    for (mi, mode) in MODES_LOCAL.iter().chain(MODES_SRV.iter()).enumerate() {
+        let (g, m) = [(0usize, "M"), (3, "Get"), (8, "Do")][mi % 3];
+        let name = g_name(g);
+        let exact = r("POST", &format!("/{name}/{m}"));
+        let mut reqs: Vec<Req3> = vec![exact.clone()];
+        for (k, p) in super::mutations(rng, &name, m).into_iter().take(35).enumerate() {
+            if uri_ok(&p, None) {
+                reqs.push(("POST".into(), p, None));
+            }
+            if k % 12 == 11 {
+                reqs.push(exact.clone());
+            }
+        }
+        reqs.push(exact);
+        reqs.retain(|q| *mode != "srv-h1" || h1_ok(&all, &q.1));
+        out.push(seq_line(mode, CTORS[mi % CTORS.len()], if mi % 2 == 0 { &all } else { &rev }, &reqs));
+    }
+
     // ---- the second pool: every declared method and its mutations (one request each)
     for xi in 0..XPOOL.len() {
         let g = POOL.len() + xi;
